@@ -9,6 +9,10 @@ ids = [p["id"] for p in props]
 
 # id -> (text, note, technique, design_ref)
 CLAIMED = json.loads((VERIF / "tools" / "claims.json").read_text())
+COMMON = CLAIMED.pop("_common_note")
+PROPS = json.loads((VERIF / "lean" / "props.json").read_text())
+# a proof-level claim needs proved obligations: properties whose theorems are not in the build yet stay unclaimed
+CLAIMED = {k: v for k, v in CLAIMED.items() if len(PROPS.get(k, {}).get("theorems", [])) >= 1}
 
 checks = []
 na = []
@@ -24,12 +28,12 @@ for pid in ids:
                 "replay_cmd_template": f"./check {pid} --replay {{path}}",
                 "engine": "lean4-model+correspondence",
                 "level_claimed": {"category": "proof", "text": c["text"], "design_ref": c.get("design_ref", "DESIGN.md section 4")},
-                "level_note": c["note"],
+                "level_note": c.get("note", COMMON),
                 "technique": c["technique"],
             }
         )
     else:
-        na.append({"property_id": pid, "reason": "check not built yet in this revision (work in progress; see DESIGN.md section 9)"})
+        na.append({"property_id": pid, "reason": "not claimed in this revision: the correspondence check and oracle exist (./check " + pid + ") but the Lean theorems for this property are not in the build yet, so no proof-level claim is made"})
 
 manifest = {
     "version": 1,
